@@ -28,9 +28,12 @@ import time
 
 VERIF = os.path.dirname(os.path.dirname(os.path.abspath(__file__)))
 COQ = os.path.join(VERIF, "coq")
-HARNESS = os.path.join(VERIF, "harness")
-WORK = os.path.join(VERIF, "work")
-EVID = os.path.join(VERIF, "evidence")
+# Overrides used only when the checks are pointed at a scratch copy of /repo carrying a seeded change
+# (tools/seedtest.sh): a copy of the harness whose path dependencies name that worktree, and separate
+# work / evidence directories so the real evidence is not overwritten.
+HARNESS = os.environ.get("VERIF_HARNESS", os.path.join(VERIF, "harness"))
+WORK = os.environ.get("VERIF_WORK", os.path.join(VERIF, "work"))
+EVID = os.environ.get("VERIF_EVIDENCE", os.path.join(VERIF, "evidence"))
 REPLAY = os.path.join(EVID, "replay")
 KNOWN = os.path.join(VERIF, "known_findings.txt")
 NCPU = os.cpu_count() or 4
